@@ -74,7 +74,8 @@ ENTITIES = {
     "RED2": (["BASE2"], [("rs", STR, False, False)]),
 }
 # attributes redeclared in a subtype with a narrower type (not derived): (entity, attr) -> the type instances of that entity need
-REDECLARED_IN = {("DCARRIER", "load"): ref("DPOINT"), ("LCARRIER", "load"): ref("DPOINT"), ("RED2", "bn"): INT}
+REDECLARED_IN = {("DCARRIER", "load"): ref("DPOINT"), ("LCARRIER", "load"): ref("DPOINT"), ("RED2", "bn"): INT,
+                 ("NARROW_HOLDER", "held"): ref("SPECIAL_PART")}
 ABSTRACT = {"BASE"}
 # attributes redeclared as DERIVE in a subtype: (entity, supertype attr) -> written as '*'
 DERIVED_IN = {("DPOINT", "tag"), ("SI_B", "dims"), ("TRI_D", "ta"), ("TRI_D", "tb")}
@@ -430,11 +431,18 @@ INV_ENTITIES = {
     "VERY_SPECIAL_PART": (["SPECIAL_PART"], [("vs", INT, False, False)]),
     "TAGGED": ([], [("tag", STR, False, False)]),
     "TAGGED_PART": (["PART", "TAGGED"], [("extra", INT, False, False)]),
-    "TAG_USE": ([], [("target", ref("TAGGED", "TAGGED_PART"), False, False), ("uname", STR, False, False)]),
+    "GADGET": (["SPECIAL_PART", "TAGGED_PART"], [("g", INT, False, False)]),
+    "AUDITED": ([], [("auditor", STR, False, False)]),
+    "AUDIT": ([], [("subject", ref("AUDITED", "AUDITED_TAGGED"), False, False), ("remark", STR, False, False)]),
+    "AUDITED_TAGGED": (["TAGGED", "AUDITED"], [("at", INT, False, False)]),
+    "TAG_USE": ([], [("target", ref("TAGGED", "TAGGED_PART", "GADGET", "AUDITED_TAGGED"), False, False), ("uname", STR, False, False)]),
     "LABEL": ([], [("ltarget", PART_OR_DOC, False, False), ("ltext", STR, False, False)]),
     "CRATE": ([], [("cname", STR, False, False), ("content", agg(ref("PART")), False, False)]),
     "HOLDER": ([], [("hname", STR, False, False), ("held", ref("PART"), False, False)]),
     "SUB_HOLDER": (["HOLDER"], [("sh", INT, False, False)]),
+    "NARROW_HOLDER": (["SUB_HOLDER"], []),
+    "OTHER_HOLDER": ([], [("held", ref("PART"), False, False)]),
+    "DUAL_HOLDER": (["OTHER_HOLDER", "SUB_HOLDER"], []),
     "TASK": ([], [("tname", STR, False, False), ("needs", agg(ref("TASK")), False, False), ("after", ref("TASK"), True, False)]),
     "ASSEMBLY": ([], [("aname", STR, False, False), ("components", agg(ref("PART")), False, False),
                       ("main_part", ref("PART"), True, False), ("spare", ref("PART"), True, False)]),
@@ -444,13 +452,17 @@ INV_ENTITIES = {
     "CERTIFICATE": ([], [("subject", ref("SPECIAL_PART"), False, False), ("other", ref("PART"), True, False)]),
 }
 # external mappings of the assembly family (referrers in external mapping)
-INV_COMPLEX_LEGAL = [["ASSEMBLY", "SUB_ASSEMBLY"], ["ASSEMBLY", "SUB_ASSEMBLY", "SUB_SUB_ASSEMBLY"]]
+INV_COMPLEX_LEGAL = [["ASSEMBLY", "SUB_ASSEMBLY"], ["ASSEMBLY", "SUB_ASSEMBLY", "SUB_SUB_ASSEMBLY"],
+                     # referents in external mapping: every part has its own inverse attributes
+                     ["PART", "SPECIAL_PART", "TAGGED", "TAGGED_PART"], ["PART", "SPECIAL_PART", "VERY_SPECIAL_PART"]]
 VERIF_INV = Schema("VERIF_INV", INV_ENTITIES, complex_legal=INV_COMPLEX_LEGAL,
-                   weights={"PART": 0.2, "SPECIAL_PART": 0.1, "VERY_SPECIAL_PART": 0.08, "TAGGED_PART": 0.08, "COMPLEX": 0.06, "TASK": 0.12},
+                   weights={"PART": 0.2, "SPECIAL_PART": 0.1, "VERY_SPECIAL_PART": 0.08, "TAGGED_PART": 0.08, "COMPLEX": 0.06, "TASK": 0.12,
+                            "GADGET": 0.08, "AUDITED_TAGGED": 0.06, "AUDIT": 0.06, "NARROW_HOLDER": 0.06, "DUAL_HOLDER": 0.08, "SUB_HOLDER": 0.06},
                    inverses={"PART": [("crates", "CRATE", "content", True), ("sub_owners", "SUB_HOLDER", "held", True), ("used_in", "ASSEMBLY", "components", True), ("main_of", "ASSEMBLY", "main_part", True),
                                       ("doc", "DOCUMENTATION", "about", False), ("labels", "LABEL", "ltarget", True)],
                              "SPECIAL_PART": [("certified_by", "CERTIFICATE", "subject", True)],
                              "TAGGED": [("tag_users", "TAG_USE", "target", True)],
+                             "AUDITED": [("tag_users", "AUDIT", "subject", True)],
                              "TASK": [("needed_by", "TASK", "needs", True), ("before", "TASK", "after", True)]},
                    skip=["LABEL"])       # a LABEL that refers to a part stops the loader (open finding select_typed_inverted_attribute)
 VERIF_INV.fallback = "PART"
